@@ -56,6 +56,57 @@ def task(args):
     return n, out, classes
 
 
+def task_session(args):
+    """the same path through BGP.send_update -> transport -> a second agent's dataReceived -> handler.update_received"""
+    import copy
+    from .. import world as W, budget
+    from ..alphabet import session_messages
+    from ..ref import wire
+    prop, which, lo, hi, tier = args
+    M = session_messages()
+    est = [('TICK', 0), ('CONN_OK', 0), ('RX', 0, 'OPEN_OK'), ('RX', 0, 'KA')]
+    out = []
+    classes = set()
+    n = 0
+    for fam, cv, msg, asn4 in codec.sliced(cases_of(which, tier), lo, hi):
+        if not asn4 or fam == 'ipv4-unicast-mp':
+            continue
+        ok, why = upd.in_range(msg, True)
+        if not ok or not (msg.get('attr') or msg.get('withdraw')):
+            continue
+        n += 1
+        a = W.replay({}, est, M)
+        t = a.readable()[0].transport
+        before = len(t.writes)
+        st, res, steps = budget.run(400000, lambda: (a.fsm.protocol.send_update(copy.deepcopy(msg)), a.sim.drain_threads()))
+        wrote = [d for _, d in t.writes[before:]]
+        if st != 'ok' or not res[0] or len(wrote) != 1:
+            classes.add((fam, 'send refused'))
+            continue                      # a refused send is C16's business; nothing crossed the wire
+        b = W.replay({}, est, M)
+        got = []
+        b.handler.update_received = lambda peer, ts, m: got.append(copy.deepcopy(m))
+        errs = []
+        b.handler.on_update_error = lambda peer, ts, m: errs.append(m)
+        b.step(('RX', 0, wrote[0]))
+        want = codec.norm(upd.expected(msg, True))
+        if errs or len(got) != 1:
+            out.append(('%s|session-path|%s|%s|receiver reported %s' % (prop, fam, '/'.join(cv), 'on_update_error' if errs else '%d updates' % len(got)),
+                        {'family': fam, 'class_vector': list(cv), 'msg': msg, 'asn4': True, 'hex': wrote[0].hex()[:400]}))
+            continue
+        have = codec.norm({k: got[0].get(k) for k in ('attr', 'nlri', 'withdraw')})
+        d = codec.first_diff(want, have)
+        classes.add((fam, 'delivered', d))
+        if d:
+            out.append(('%s|session-path|%s|%s|diff:%s' % (prop, fam, '/'.join(cv), d),
+                        {'family': fam, 'class_vector': list(cv), 'msg': msg, 'asn4': True, 'want': want, 'got': have}))
+    return n, out, classes
+
+
+def _dispatch(t):
+    return task_session(t[1:]) if t[0] == 'session' else task(t)
+
+
 def run_pool(prop, which, tier, seed, rule, assumptions):
     tm = report.Timer()
     col = report.Collector(prop)
@@ -63,7 +114,10 @@ def run_pool(prop, which, tier, seed, rule, assumptions):
     total_cases = sum(1 for _ in gen)
     step = 1500
     tasks = [(prop, which, lo, lo + step, tier) for lo in range(0, total_cases, step)]
-    res = explore.pmap(task, tasks, chunk=1)
+    # the session path (send_update -> wire -> second agent -> handler) on every k-th slice of the pool
+    k = 6 if tier == 'quick' else 3
+    tasks += [('session', prop, which, lo, lo + step // 3, tier) for i, lo in enumerate(range(0, total_cases, step)) if i % k == seed % k]
+    res = explore.pmap(_dispatch, tasks, chunk=1)
     explore.close_pool()
     total = 0
     classes = set()
@@ -77,7 +131,7 @@ def run_pool(prop, which, tier, seed, rule, assumptions):
     cov = {
         'evaluations': total, 'distinct_nontrivial': len(classes), 'rule': rule,
         'samples': [{'family': sample[0], 'class_vector': list(sample[1]), 'msg': sample[2], 'asn4': sample[3]}],
-        'out_of_range_inputs': sum(1 for c in classes if c[3] in ('out-of-range', 'out-of-range-constructed')),
+        'out_of_range_inputs': sum(1 for c in classes if len(c) > 3 and c[3] in ('out-of-range', 'out-of-range-constructed')),
         'exhaustive': True, 'violation_keys': summary,
     }
     report.write_evidence(prop, tier, seed, 'exploration', cov, assumptions, tm.wall(), n_new)
